@@ -1,4 +1,5 @@
 mod bencode;
+mod corpus;
 mod crc32c;
 mod krpc;
 mod props;
